@@ -320,10 +320,16 @@ def frame_rows(env):
     raise ModelError("frame kind")
 
 
+RUN_FLAGS = set()     # facts about the current Interp.run that oracles use to name a root cause
+
+
 def ev_win_agg(e, env):
     sel, undetermined = frame_rows(env)
     vals = [ev(e[2], Env(env.cols, r)) for r in sel] if e[2] is not None else [1] * len(sel)
     v = agg(e[1], vals, len(sel))
+    if e[1] == "sum" and all(x is None for x in vals):
+        # a windowed sum whose frame holds no non-NULL value: documented value 0 (SQL's SUM gives NULL)
+        RUN_FLAGS.add("win_sum_all_null")
     if undetermined:
         # value may still be the same for every admissible choice only if frame covers all; be conservative
         raise Unspecified("window frame cuts through tied rows")
@@ -509,6 +515,7 @@ class Interp:
 
     def run(self, prog):
         self.lets = {}
+        RUN_FLAGS.clear()
         FUNCS.clear()
         for f in prog.get("funcs", []):
             FUNCS[f["name"]] = f
